@@ -26,7 +26,11 @@ class RsaKeySizeTransformer(LibcstResultTransformer):
             return original_node
 
         if original_node.args[1].keyword is None:
-            new_args = [original_node.args[0], self.make_new_arg(RSA_KEYSIZE)]
+            new_args = [
+                original_node.args[0],
+                self.make_new_arg(RSA_KEYSIZE),
+                *original_node.args[2:],
+            ]
         else:
             new_args = self.replace_args(
                 original_node,
